@@ -33,9 +33,10 @@ def discharge(ob, world_axioms, timeout_ms=20000, want_model=False, retry=True, 
     ob.result = str(r)
     if r == z3.unknown and retry:
         ob.reason = s.reason_unknown()
-        # retry with MBQI on (can find models / sometimes proofs) with a shorter budget
+        reasons = [ob.reason]
+        # retry with MBQI on (can find models / sometimes proofs)
         s2 = z3.Solver()
-        s2.set('timeout', max(2000, timeout_ms // 4))
+        s2.set('timeout', max(2000, timeout_ms // 2))
         for a in s.assertions():
             s2.add(a)
         if cover:
@@ -47,6 +48,7 @@ def discharge(ob, world_axioms, timeout_ms=20000, want_model=False, retry=True, 
         elif cover:
             pass
         else:
+            reasons.append(s2.reason_unknown())
             # e-matching is order sensitive: retry with other seeds / a more eager instantiation threshold
             for seed, thr in ((7, 20.0), (23, 100.0), (101, 10.0)):
                 s3 = z3.Solver()
@@ -62,6 +64,23 @@ def discharge(ob, world_axioms, timeout_ms=20000, want_model=False, retry=True, 
                     ob.result = str(r3)
                     s, r = s3, r3
                     break
+                reasons.append(s3.reason_unknown())
+            if r == z3.unknown and any(('timeout' in x or 'cancel' in x) for x in reasons):
+                # some attempt ran out of time (a loaded machine): one patient attempt of each kind before giving up,
+                # so that a verdict does not flip because all cores are busy
+                for mb in (False, True):
+                    s4 = z3.Solver()
+                    s4.set('timeout', timeout_ms * 3)
+                    if not mb:
+                        s4.set('auto_config', False)
+                        s4.set('smt.mbqi', False)
+                    for a in s.assertions():
+                        s4.add(a)
+                    r4 = s4.check()
+                    if r4 != z3.unknown:
+                        ob.result = str(r4)
+                        s, r = s4, r4
+                        break
     if r == z3.sat and want_model:
         try:
             ob.model = s.model()
